@@ -334,15 +334,15 @@ def step (st : St) (line : String) : St × String :=
     | _, _, _ => bad
   | ["TRC", t] =>
     match unhex t with
-    | some t => (st, optS rTraceP (parseTrace t))
+    | some t => (st, if validUtf8 t then optS rTraceP (parseTrace t) else "-")
     | none => bad
   | ["FRM", l] =>
     match unhex l with
-    | some l => (st, optS (fun f => rFrame f ++ "/" ++ hx (printFrame f)) (parseFrame l))
+    | some l => (st, if validUtf8 l then optS (fun f => rFrame f ++ "/" ++ hx (printFrame f)) (parseFrame l) else "-")
     | none => bad
   | ["THW", l] =>
     match unhex l with
-    | some l => (st, optS (fun t => rThrowable t ++ "/" ++ hx (printThrowable t)) (parseThrowable l))
+    | some l => (st, if validUtf8 l then optS (fun t => rThrowable t ++ "/" ++ hx (printThrowable t)) (parseThrowable l) else "-")
     | none => bad
   | "DSPS" :: toks =>
     match parseTraceToks toks with
